@@ -8,7 +8,9 @@ package flags
 import (
 	"encoding/json"
 	"errors"
+	goflag "flag"
 	"fmt"
+	"io"
 	"reflect"
 	"strconv"
 	"strings"
@@ -173,7 +175,15 @@ func Run(r *sim.R, maxSets int) {
 	}
 	r.Tracef("flag(files=%v autoBool=%v default=%v opts=%v)", files, autoBool, def != nil, o.desc)
 
-	// GetOptions must be the options given at construction
+	// some histories go through flag.FlagSet, as a command line does
+	viaFlagSet := t.Chance(1, 4, "via-flagset")
+	var fs *goflag.FlagSet
+	if viaFlagSet {
+		fs = goflag.NewFlagSet("sim", goflag.ContinueOnError)
+		fs.SetOutput(io.Discard)
+		fs.Var(fv, "c", "config setting")
+		r.Probe("flags: history driven through flag.FlagSet.Parse")
+	}
 	checkOptions(r, fv, o)
 
 	var firstErr error // model
@@ -195,8 +205,14 @@ func Run(r *sim.R, maxSets int) {
 			mRep = mErr
 		}
 		var got error
-		r.MustComplete("Set", func() { got = fv.Set(arg) })
-		r.Tracef("Set(%q) = %v", arg, got)
+		if viaFlagSet {
+			// through the standard flag package: -c <arg>, one occurrence per Parse
+			r.MustComplete("FlagSet.Parse", func() { got = fs.Parse([]string{"-c", arg}) })
+			r.Tracef("FlagSet.Parse(-c %q) = %v", arg, got)
+		} else {
+			r.MustComplete("Set", func() { got = fv.Set(arg) })
+			r.Tracef("Set(%q) = %v", arg, got)
+		}
 		if (got == nil) != (mRep == nil) {
 			r.Fail("set-result", "Set", "Set(%q) returned %v, sequential semantics give %v", arg, got, mRep)
 		}
